@@ -16,7 +16,8 @@ import (
 //	rr    0/1 route reflector client, cluster id
 //	imp   import policy: A accept all, D reject all, R rewrite (set local-pref 200) and accept, N none configured
 //	      (= the default, reject all); optionally followed by the export policy (same letters, default A)
-//	init  i (outgoing FSM, starts Idle) | a (FSM created for an accepted connection, starts Active)
+//	init  i (outgoing FSM, starts Idle) | a (FSM created for an accepted connection, starts Active) |
+//	      r (as i, but peer transmissions go through the connection and the speaker's real msgReceiver goroutine)
 type SessCfg struct {
 	LAS, PAS, RID          uint32
 	Hold                   int
@@ -129,7 +130,7 @@ func ParseSessCfg(t string) (SessCfg, error) {
 		}
 	}
 	c.Init = p[10][0]
-	if c.Init != 'i' && c.Init != 'a' {
+	if c.Init != 'i' && c.Init != 'a' && c.Init != 'r' {
 		return c, bad
 	}
 	return c, nil
@@ -331,7 +332,7 @@ func ParseMsg(s string) (Msg, error) {
 //	up       TCP connection established (handed to the FSM on conCh); upx: a connection whose writes fail
 //	hp0/hp1  the 1-second hold poll fires; 1 = the hold time has run out
 //	ka       keepalive timer fires          cr  connect-retry timer fires
-//	brk      writes on the session's connection start to fail
+//	brk      writes on the session's connection start to fail;  pc: the peer closes the connection (reads EOF, writes fail)
 //	ri<A|D|R> / re<A|D|R>  the import / export policy of the running session is replaced
 //	m:<msg>  the peer transmits <msg>
 type Event struct {
@@ -371,7 +372,7 @@ func ParseEvent(t string) (Event, error) {
 	switch {
 	case len(r) == 3 && (r[:2] == "ri" || r[:2] == "re") && strings.ContainsRune("ADR", rune(r[2])):
 		e.Kind, e.Code = r[:2], int(r[2])
-	case r == "up" || r == "upx" || r == "ka" || r == "cr" || r == "brk":
+	case r == "up" || r == "upx" || r == "ka" || r == "cr" || r == "brk" || r == "pc":
 		e.Kind = r
 	case r == "hp0" || r == "hp1":
 		e.Kind, e.Code = "hp", int(r[2]-'0')
